@@ -226,11 +226,10 @@ func CreateCertificate(template, parent *Certificate, publicKey *sm2.PublicKey, 
 
 	c.Raw = tbsCertContents
 
+	// an SM2 signer is handed the message itself (it hashes ZA || message internally), whatever algorithm the
+	// template names or leaves to default; every other signer is handed the digest
 	digest := tbsCertContents
-	switch template.SignatureAlgorithm {
-	case SM2WithSM3, SM2WithSHA1, SM2WithSHA256:
-		break
-	default:
+	if _, isSM2 := signer.Public().(*sm2.PublicKey); !isSM2 {
 		h := hashFunc.New()
 		h.Write(tbsCertContents)
 		digest = h.Sum(nil)
